@@ -179,4 +179,59 @@ theorem untilLoop_spec : ∀ (f : Nat) (s s' : State) (d : List Byte) (m off : N
               exact .inr (.inr (.inl ⟨a, b⟩))
             · exact .inr (.inr (.inr a))
 
+/-! ### call sequences -/
+
+/-- bytes pulled out of the wrapped stream between two states -/
+def pulledBy (s s' : State) : List Byte := s.rest.take (s.rest.length - s'.rest.length)
+
+/-- the bytes that entered the wrapper during a run, in the order they entered: pulled from
+the wrapped stream by a call, or fed by `feed_data` -/
+def entered : State → List Call → List Byte
+  | _, [] => []
+  | s, c :: cs => pulledBy s (call s c).2 ++ fedBy c ++ entered (call s c).2 cs
+
+/-- the part of `entered` that came from the wrapped stream -/
+def sourced : State → List Call → List Byte
+  | _, [] => []
+  | s, c :: cs => pulledBy s (call s c).2 ++ sourced (call s c).2 cs
+
+/-- what the calls handed out (results, plus consumed delimiters), in call order -/
+def handedOf : List Call → List Res → List Byte
+  | c :: cs, r :: rs => handed c r ++ handedOf cs rs
+  | _, _ => []
+
+theorem call_conserves {s s' : State} {c : Call} {r : Res} (h : call s c = (r, s')) :
+    ∃ p, s.rest = p ++ s'.rest ∧ handed c r ++ s'.buf = s.buf ++ p ++ fedBy c := by
+  cases c with
+  | receive n =>
+    obtain ⟨p, h1, h2⟩ := (receive_spec h).1.src
+    exact ⟨p, h1, by simp [fedBy, h2]⟩
+  | exactly n =>
+    obtain ⟨p, h1, h2⟩ := (exactlyLoop_spec _ _ _ _ _ h).1.src
+    exact ⟨p, h1, by simp [fedBy, h2]⟩
+  | «until» d m =>
+    obtain ⟨p, h1, h2⟩ := (untilLoop_spec _ _ _ _ _ _ _ h (by simp)).1.src
+    exact ⟨p, h1, by simp [fedBy, h2]⟩
+  | feed bs =>
+    simp only [call] at h
+    cases h
+    exact ⟨[], by simp [State.rest, feed], by simp [handed, fedBy, feed]⟩
+  | close =>
+    simp only [call] at h
+    cases h
+    exact ⟨[], by simp [State.rest, close], by simp [handed, fedBy, close]⟩
+
+theorem pulledBy_eq {s s' : State} {p : List Byte} (h : s.rest = p ++ s'.rest) :
+    pulledBy s s' = p := by
+  simp [pulledBy, h]
+
+theorem call_nonempty {s s' : State} {c : Call} {r : Res} (h : call s c = (r, s'))
+    (hn : NonemptyChunks s) : NonemptyChunks s' := by
+  cases c with
+  | receive n => exact (receive_spec h).2.2.2.2.2 hn
+  | exactly n => exact (exactlyLoop_spec _ _ _ _ _ h).2.2.2.2 hn
+  | «until» d m => exact (untilLoop_spec _ _ _ _ _ _ _ h (by simp)).2.2.2.2 hn
+  | feed bs => simp only [call] at h; cases h; exact hn
+  | close => simp only [call] at h; cases h; exact hn
+
 end AnyioModel.Stream.Buffered
